@@ -6,15 +6,15 @@
   to operations of the Lifetime machine (outermost `abortFlow` / `finishFlow`; the `EndScope`, `BeginScope`, label and effect-free
   elements of `slideStep`; the processing of `StopFlow` / `FinishFlow` events in all their forms and of a `StartFlow` that does not
   create an instance; `setFlowStatus`; `updateActionStatusByEvent`), under the explicit hypotheses of the respective refinement theorem.
-  `RefinedStep` : a `RefinedOpStep`, or `addNewFlowInstance` (= `createInst`, not an operation of the Lifetime machine, which has
-  creation + `_start_flow` as ONE operation).
+  `RefinedStep` : a `RefinedOpStep`, or `addNewFlowInstance` (= `createInst`), or `startFlow` of an isolated instance (= `linkInst`);
+  the Lifetime machine has creation + `_start_flow` as ONE operation (`IOp.startChild`).
   `refinedStep_is_op`            : every such step IS a sequence of covered operations / a creation on the abstraction (up to `cs`).
   `corevm_hierarchy_invariant_partial` : `FlowInv ∧ LinkInv` of the abstraction and `WF` are preserved along every sequence of
   refined steps.  PARTIAL: the full statement (`corevm_lifetime_invariant`) would quantify over all steps of
-  `CoreVM.runToCompletion`; the steps that are not refined (`_start_flow`, new-action / `Start` / conflict resolution sites, head
-  movement in general) are not in the relation.
+  `CoreVM.runToCompletion`; the steps that are not refined (new-action / `Start` / conflict resolution sites, head movement in
+  general) are not in the relation.
 -/
-import NemoVerif.Lemmas.LifetimeCoreVM8d
+import NemoVerif.Lemmas.LifetimeCoreVM8e
 namespace NemoVerif.Lifetime.Refine
 open NemoVerif NemoVerif.CoreVM NemoVerif.CoreIndex NemoVerif.Lifetime
 
@@ -268,6 +268,15 @@ inductive RefinedStep : VM → VM → Prop
   | create (uid : FUid) (cfg : FlowCfg) (hp : String) (args : List (String × Val)) (vm vm' : VM) :
       lookupArg "context" args = none → ArgsFrame cfg args → cfg.id ≠ "main" → unlisted (absVM ν φ vm) (ν uid) = true →
       addNewFlowInstance uid cfg hp args vm = .ok () vm' → RefinedStep vm vm'
+  | link (f : FUid) (args : List (String × Val)) (n : Int) (parent : String) (osh : Option String) (cf pf : Flow) (vm vm' : VM) :
+      vm.r.mainUid ≠ some f → lookupArg "activated" args = some (.int n) → 0 ≤ n →
+      lookupArg "source_head_uid" args = some (optStrVal osh) →
+      lookupArg "source_flow_instance_uid" args = some (.str parent) → f ≠ parent →
+      (∀ x, OMap.lookup f vm.r.fx = some x → x.arguments = []) →
+      (absVM ν φ vm).flows (ν f) = some cf → (absVM ν φ vm).flows (ν parent) = some pf →
+      cf.children = [] → cf.isMain = false → unlisted (absVM ν φ vm) (ν f) = true →
+      (pf.status.listening = true ∨ 0 < n.toNat) →
+      startFlow f args vm = .ok () vm' → RefinedStep vm vm'
 
 /-- every refined CoreVM step IS a sequence of covered operations of the Lifetime machine on the abstraction, or the creation of an
     isolated instance -/
@@ -275,14 +284,20 @@ theorem refinedStep_is_op (hν : Function.Injective ν) (hφ : Function.Injectiv
     (h : RefinedStep ν φ vm vm') : WF vm' ∧
       ((∃ ops : List IOp, (∀ op ∈ ops, Covered op) ∧ absVM ν φ vm' = cs (ops.foldl applyOp (absVM ν φ vm))) ∨
        (∃ c fid, (absVM ν φ vm).flows c = none ∧ unlisted (absVM ν φ vm) c = true ∧
-          absVM ν φ vm' = createInst (absVM ν φ vm) c fid)) := by
+          absVM ν φ vm' = createInst (absVM ν φ vm) c fid) ∨
+       (∃ c p k cf pf, (absVM ν φ vm).flows c = some cf ∧ (absVM ν φ vm).flows p = some pf ∧ cf.children = [] ∧ cf.isMain = false ∧
+          unlisted (absVM ν φ vm) c = true ∧ c ≠ p ∧ (pf.status.listening = true ∨ 0 < k) ∧
+          absVM ν φ vm' = linkInst (absVM ν φ vm) c p k)) := by
   cases h with
   | op h0 =>
     obtain ⟨w, ops, hc, ha⟩ := refinedOpStep_is_op ν φ hν hφ vm vm' hw h0
     exact ⟨w, Or.inl ⟨ops, hc, ha⟩⟩
   | create uid cfg hp args _ _ hctx hargs hmain hul hr =>
     obtain ⟨h1, h2, h3⟩ := corevm_addNewFlowInstance_is_create ν φ hν uid cfg hp args vm vm' hw hctx hargs hmain hr
-    exact ⟨h3, Or.inr ⟨ν uid, φ cfg.id, h1, hul, h2⟩⟩
+    exact ⟨h3, Or.inr (Or.inl ⟨ν uid, φ cfg.id, h1, hul, h2⟩)⟩
+  | link f args n parent osh cf pf _ _ hm hact hn0 hsh hsrc hfp hna hcf hpf hch hmn hul hg hr =>
+    obtain ⟨_, h2, h3⟩ := corevm_startFlow_is_link ν φ hν f args vm vm' n parent osh hm hact hn0 hsh hsrc hw hfp hna hr
+    exact ⟨h3, Or.inr (Or.inr ⟨ν f, ν parent, n.toNat, cf, pf, hcf, hpf, hch, hmn, hul, fun e => hfp (hν e), hg, h2⟩)⟩
 
 /-- reachability by refined CoreVM steps -/
 inductive RefinedSteps : VM → VM → Prop
@@ -301,7 +316,7 @@ theorem corevm_hierarchy_invariant_partial (hν : Function.Injective ν) (hφ : 
   | tail _ hstep ih =>
     obtain ⟨w1, f1, l1⟩ := ih
     obtain ⟨w2, hcase⟩ := refinedStep_is_op ν φ hν hφ _ _ w1 hstep
-    rcases hcase with ⟨ops, hcov, habs⟩ | ⟨c, fid, hc0, hul, habs⟩
+    rcases hcase with ⟨ops, hcov, habs⟩ | ⟨c, fid, hc0, hul, habs⟩ | ⟨c, p, k, cf, pf, hcf, hpf, hch, hmn, hul, hcp, hg, habs⟩
     · have key : ∀ (ops : List IOp) (s : State), (∀ op ∈ ops, Covered op) → FlowInv s → LinkInv s →
           FlowInv (ops.foldl applyOp s) ∧ LinkInv (ops.foldl applyOp s) := by
         intro ops
@@ -316,6 +331,8 @@ theorem corevm_hierarchy_invariant_partial (hν : Function.Injective ν) (hφ : 
       exact ⟨w2, FlowInv.cs f2, LinkInv.cs l2⟩
     · rw [habs]
       exact ⟨w2, createInst_flowInv _ c fid f1 hc0 hul, createInst_linkInv _ c fid l1 hc0⟩
+    · rw [habs]
+      exact ⟨w2, linkInst_flowInv _ c p k cf pf f1 hcf hpf hch hmn hul hcp hg, linkInst_linkInv _ c p k cf pf l1 hcf hpf hch hmn hcp⟩
 
 /-! ### non-vacuity: `vmEx` satisfies the hypotheses, and a refined step leaves it -/
 
